@@ -113,7 +113,8 @@ type muxRun struct {
 	mu       sync.Mutex
 	closeRet bool
 	closed   bool
-	closed2  bool // Close has been called a second time
+	closed2  bool          // Close has been called a second time
+	addGate  chan struct{} // non-nil: handleConn goroutines park in AddConn (yield point tm.addconn) until it is closed
 	replies  int
 	out      func(muxLine)
 }
@@ -435,6 +436,14 @@ func (r *muxRun) step(a muxAct) {
 			r.closeRet = true
 			r.mu.Unlock()
 		}()
+	case "HoldAdd":
+		r.mu.Lock()
+		if r.addGate == nil {
+			r.addGate = make(chan struct{})
+		}
+		r.mu.Unlock()
+	case "FreeAdd":
+		r.freeAdd()
 	case "Advance":
 		time.Sleep(16 * time.Second)
 	case "Reply":
@@ -454,6 +463,16 @@ func (r *muxRun) step(a muxAct) {
 	r.out(line)
 }
 
+func (r *muxRun) freeAdd() {
+	r.mu.Lock()
+	g := r.addGate
+	r.addGate = nil
+	r.mu.Unlock()
+	if g != nil {
+		close(g)
+	}
+}
+
 func runMuxScenario(t *testing.T, sc muxScenario, out func(muxLine)) {
 	t.Helper()
 	leak := ""
@@ -469,10 +488,25 @@ func runMuxScenario(t *testing.T, sc muxScenario, out func(muxLine)) {
 			for i, b := range sc.Beh {
 				r.cl = append(r.cl, &muxClient{beh: b, st: "idle", addr: &net.TCPAddr{IP: net.IPv4(10, 9, 9, byte(i+1)), Port: 1000 + i}})
 			}
+			// the one yield point of the TCP mux (tag verif): AddConn, after handleConn has found or created the packet connection
+			// and before it takes that connection's lock. HoldAdd arms a gate there, FreeAdd opens it.
+			ice.VerifSetYield(func(site string) {
+				if site != "tm.addconn" {
+					return
+				}
+				r.mu.Lock()
+				g := r.addGate
+				r.mu.Unlock()
+				if g != nil {
+					<-g
+				}
+			})
+			defer ice.VerifSetYield(nil)
 			out(muxLine{Ev: "Reset", ID: sc.ID, Beh: sc.Beh, RB: sc.RB, Lat: sc.Later, W: true, Pre: r.obs()})
 			for _, a := range sc.Acts {
 				r.step(a)
 			}
+			r.freeAdd()
 			// epilogue: Close (if the scenario did not), then enough time for every timer, then the final observation
 			if !r.closed {
 				r.step(muxAct{Ev: "Close", W: true})
